@@ -337,11 +337,33 @@ func (u *Unit) mergeVals(name string, t types.Type, vals []Val, pcs []Term) Val 
 	}
 	if anyF {
 		f0 := vals[0].F
+		mixed := false
 		for _, v := range vals[1:] {
 			if v.F == nil || f0 == nil || v.F.Fn != f0.Fn {
-				panic("merge: different closures for " + name)
+				mixed = true
 			}
 		}
+		if mixed {
+			// a variable that holds a closure literal on one path and some other function value on another: from
+			// here on it is an opaque (non-nil where it is a closure) function value; calls through it go by the
+			// contract of its function type
+			u.Trust("a function variable holding different closures on different paths is an opaque function value after the join")
+			conv := make([]Val, len(vals))
+			for i, v := range vals {
+				if v.F != nil && len(v.S) == 0 {
+					id := u.Fresh("closure", SInt)
+					u.Assume(Neq(id, IntLit(0)))
+					conv[i] = Val{T: t, S: []Term{id}}
+				} else {
+					conv[i] = v
+				}
+			}
+			vals = conv
+			anyF = false
+		}
+	}
+	if anyF {
+		f0 := vals[0].F
 		nb := make([]Val, len(f0.Bindings))
 		for bi := range f0.Bindings {
 			bs := make([]Val, len(vals))
